@@ -41,10 +41,17 @@ def main() -> int:
         repo = os.environ.get("LW_REPO", "/repo")
         if not os.path.realpath(lightworks.__file__).startswith(os.path.realpath(repo) + os.sep):
             raise core.MachineryFault(f"lightworks imported from {lightworks.__file__}, not from {repo}")
-        if replay:
-            mod.replay(ctx, replay)
-        else:
-            mod.run(ctx)
+        cov = core.ImplCoverage(prop, repo) if (ctx.thorough or os.environ.get("VERIF_COVERAGE")) and not replay else None
+        if cov:
+            cov.start()
+        try:
+            if replay:
+                mod.replay(ctx, replay)
+            else:
+                mod.run(ctx)
+        finally:
+            if cov:
+                ctx.extra["impl_line_coverage"] = cov.stop()
         return ctx.finish(audit, getattr(mod, "TRUSTED", []), getattr(mod, "ASSUMPTIONS", []))
     except core.MachineryFault as e:
         print(f"MACHINERY-FAULT property={prop}: {e}", flush=True)
